@@ -45,7 +45,7 @@ def do_call(mmo, name):
       return ('ok', int(mmo.count_max_designs()))
     if name in ('treatment_groups', 'control_groups', 'treatment_groups_first', 'control_groups_first'):
       sizes = list(mmo.treatment_group_size_range())
-      n = sizes[-1] if (sizes and name.endswith('_first')) else (sizes[0] if sizes else 1)
+      n = sizes[0] if sizes else 1
       if name == 'treatment_groups_first':
         gen = mmo.treatment_group_generator(n)
         first = next(gen, None)          # the rest of the listing is abandoned
